@@ -40,6 +40,9 @@ func runC15(p *eng.Prog, r *eng.Report, tier string) {
 	}
 	chanRulesFiltered(c, "C15.5", scope, why, "ibb.")
 	c15Close(c)
+	c15OpenRegistered(c)
+	// C15.2 the session id that selects the stream is the payload's own sid
+	ownAttrLookups(c, "C15.2", func(f *eng.Fn) bool { return strings.HasPrefix(f.Short, "ibb.") })
 	c15NewConn(c)
 }
 
@@ -62,10 +65,10 @@ func c15Open(c *cx) {
 		})
 	}
 	c.r.Floor(id, "success returns of open", n, 1)
-	// the stream is registered only after the peer accepted
-	for _, cl := range f.Calls("ibb.Handler.addStream") {
-		c.domAny(id, f, cl, "stream registered", []string{"eq(xmpp.Session.UnmarshalIQ*[p3](*),nil)", "eq(stanza.UnmarshalIQError(*)#1,nil)"})
-	}
+	// (an earlier version of this rule demanded that the stream be registered
+	// only AFTER the peer accepted; that is the late-registration defect F80:
+	// the acceptor's first packet can overtake the registration. The order is
+	// now decided by c15OpenRegistered.)
 	errDiscipline(c, id, []*eng.Fn{f}, nil, false)
 }
 
@@ -272,6 +275,41 @@ func c15BufLocks(c *cx) {
 	c.r.Floor(id, "buffer operations", n, 5)
 }
 
+// c15OpenRegistered: the initiator's stream is in the handler's table before
+// the open request goes out (the acceptor may send data as soon as it has
+// accepted; a packet for a stream that is not registered yet is refused with
+// item-not-found and the stream is dead), and it is taken out again when the
+// request fails.
+func c15OpenRegistered(c *cx) {
+	id := "C15.1"
+	f := c.fn(id, "ibb", "open")
+	if f == nil {
+		return
+	}
+	g := f.Graph()
+	isAdd := func(q eng.Point, nd ast.Node) bool { return f.ContainsCall(nd, "ibb.Handler.addStream") != nil }
+	isRm := func(q eng.Point, nd ast.Node) bool { return f.ContainsCall(nd, "ibb.Handler.rmStream") != nil }
+	n := 0
+	for _, cl := range f.Calls("xmpp.Session.UnmarshalIQ") {
+		n++
+		pt, _ := g.Where(cl)
+		c.r.Check(id, f, "stream registered before the open request is sent", "O: every path to the request passes Handler.addStream", cl.Pos(), g.MustPassBefore(g.Entry(), pt, isAdd, nil), "the open request can be answered (and data can arrive) before the stream is in the handler's table")
+		cn := f.Norm(cl, &pt)
+		for _, ce := range g.EdgesMatching("!eq(" + cn + ",nil)") {
+			from := g.EdgeTarget(ce.E)
+			bad := ""
+			for _, rs := range g.Returns {
+				rp, _ := g.Where(rs)
+				if g.Reachable(from, rp, nil, isRm) {
+					bad = "return at " + c.p.Pos(rs.Pos()) + " leaves the refused stream registered"
+				}
+			}
+			c.r.Check(id, f, "registration withdrawn when the open request fails", "S: on the failure edge of the request every return has removed the stream again", cl.Pos(), bad == "", bad)
+		}
+	}
+	c.r.Floor(id, "open requests in ibb.open", n, 1)
+}
+
 func c15Close(c *cx) { c15CloseAs(c, "C15.6") }
 
 // c15CloseAs runs the close-path rules under another rule id (C09 uses them:
@@ -298,42 +336,7 @@ func c15CloseAs(c *cx, id string) {
 				return found
 			}},
 			{"close request", func(q eng.Point, nd ast.Node) bool { return f.ContainsCall(nd, "xmpp.Session.SendIQElement") != nil }},
-			{"wake readers (close readReady)", func(q eng.Point, nd ast.Node) bool {
-				if cl := f.ContainsCall(nd, "builtin.close"); cl != nil {
-					if k, _ := f.FieldClass(cl.Args[0]); k == "ibb.Conn.readReady" {
-						return true
-					}
-				}
-				// or through a helper of the same package that closes the channel
-				// unless an earlier call already did (its only guard is its own
-				// "already closed" flag)
-				found := false
-				ast.Inspect(nd, func(x ast.Node) bool {
-					call, ok := x.(*ast.CallExpr)
-					if !ok || found {
-						return !found
-					}
-					if h := f.Prog.FnOf(calleeFunc(f, call)); h != nil && h.Pkg == f.Pkg && h != f {
-						for _, hc := range h.Calls("builtin.close") {
-							if k, _ := h.FieldClass(hc.Args[0]); k == "ibb.Conn.readReady" {
-								hp, _ := h.Graph().Where(hc)
-								facts := h.Graph().FactsAt(hp)
-								okFacts := true
-								for _, fa := range facts {
-									if fa != "!recv.readClosed" {
-										okFacts = false
-									}
-								}
-								if okFacts {
-									found = true
-								}
-							}
-						}
-					}
-					return !found
-				})
-				return found
-			}},
+			{"wake readers (close readReady)", wakesReaders(f)},
 		}
 		for _, rs := range g.Returns {
 			if g.RetKindOf(rs) == eng.RetError {
@@ -354,6 +357,9 @@ func c15CloseAs(c *cx, id string) {
 				}
 				for j, nd := range b.Nodes {
 					q := eng.Point{B: int(b.Index), I: j}
+					if _, isDefer := nd.(*ast.DeferStmt); isDefer {
+						continue // a deferred step runs when Close returns: after every other step
+					}
 					if steps[i+1].m(q, nd) {
 						c.r.Check(id, f, steps[i].what+" precedes "+steps[i+1].what, "O: order of the close steps", nd.Pos(), g.MustPassBefore(g.Entry(), q, steps[i].m, nil), steps[i+1].what+" reachable before "+steps[i].what)
 					}
@@ -395,6 +401,18 @@ func c15CloseAs(c *cx, id string) {
 				}
 			}
 			c.r.Check(id, cf, "closed stream unregistered on every path", "S: after the closed flag is set every return (error returns too) has removed the stream from the handler", w.Stmt.Pos(), bad == "", bad)
+			// ... and the readers are woken on every way out as well: the stream
+			// is unregistered, so no data and no later close can wake a Read that
+			// is blocked on an empty buffer
+			isWake := wakesReaders(cf)
+			badW := ""
+			for _, rs := range cg.Returns {
+				rp, _ := cg.Where(rs)
+				if cg.Reachable(cg.After(wp), rp, nil, isWake) {
+					badW = "return at " + c.p.Pos(rs.Pos()) + " leaves readers blocked: readReady is not closed on this path"
+				}
+			}
+			c.r.Check(id, cf, "readers woken on every path", "S: after the closed flag is set every return (error returns too) has closed readReady, directly or by a deferred call", w.Stmt.Pos(), badW == "", badW)
 		}
 	}
 	cn := c.fn(id, "ibb", "(*Conn).closeNoNotify")
@@ -511,5 +529,47 @@ func c15NewConn(c *cx) {
 			}
 		}
 		c.r.Check(id, f, "peer address by role", "K: the receiving side answers the open IQ's sender, the opening side addresses its target", cl.Pos(), okTo, "")
+	}
+}
+
+// wakesReaders matches a node that closes Conn.readReady, directly or through
+// a helper of the same package whose only guard is its own "already closed"
+// flag.
+func wakesReaders(f *eng.Fn) func(eng.Point, ast.Node) bool {
+	return func(q eng.Point, nd ast.Node) bool {
+		if cl := f.ContainsCall(nd, "builtin.close"); cl != nil {
+			if k, _ := f.FieldClass(cl.Args[0]); k == "ibb.Conn.readReady" {
+				return true
+			}
+		}
+		// or through a helper of the same package that closes the channel
+		// unless an earlier call already did (its only guard is its own
+		// "already closed" flag)
+		found := false
+		ast.Inspect(nd, func(x ast.Node) bool {
+			call, ok := x.(*ast.CallExpr)
+			if !ok || found {
+				return !found
+			}
+			if h := f.Prog.FnOf(calleeFunc(f, call)); h != nil && h.Pkg == f.Pkg && h != f {
+				for _, hc := range h.Calls("builtin.close") {
+					if k, _ := h.FieldClass(hc.Args[0]); k == "ibb.Conn.readReady" {
+						hp, _ := h.Graph().Where(hc)
+						facts := h.Graph().FactsAt(hp)
+						okFacts := true
+						for _, fa := range facts {
+							if fa != "!recv.readClosed" {
+								okFacts = false
+							}
+						}
+						if okFacts {
+							found = true
+						}
+					}
+				}
+			}
+			return !found
+		})
+		return found
 	}
 }
